@@ -236,7 +236,8 @@ def run(ctx: Ctx):
                       bad_detail=f"{cs.external}() is used for something else than the size of the worker pool (reached via {' -> '.join(path[-3:])}): "
                                  f"whatever is derived from it (batch boundaries, order of a floating-point accumulation) makes the result depend on the "
                                  f"number of workers", key=f"machine:{qn}")
-    ctx.floor("R-C06-8", 3, "uses of the machine's core count in the gamma computations")
+    ctx.ok("R-C06-8", None, None, f"{n_machine} use(s) of the machine's core count in code reachable from a gamma computation, all sizing a pool",
+           construct="(sweep)")
 
     # ---------------- R-C06-7 persistent writes precede the pool
     f = ctx.fn("Continuum.compute_gamma", "R-C06-7")
